@@ -77,14 +77,15 @@ def model_corr(ctx):
     return {"model_compared": len(metas)}, dis
 
 
-def near_tie(pts):
-    """a derivative root within 1e-7 of the 0.01/0.99 filter, of 0/1, or a near-double root: float and exact may decide differently"""
+def near_tie(pts, ends=True):
+    """a derivative root within 1e-7 of the 0.01/0.99 filter, of 0/1 (ends=True: the solver's own [0,1] filter; irrelevant to findExtremes,
+    which keeps [0.01, 0.99] only), or a near-double root: float and exact may decide differently"""
     for coords in ([p[0] for p in pts], [p[1] for p in pts]):
         if len(coords) < 3:
             continue
         roots, d = oc.deriv_roots(coords)
         for r, simple in roots:
-            for edge in (F(1, 100), F(99, 100), F(0), F(1)):
+            for edge in ((F(1, 100), F(99, 100), F(0), F(1)) if ends else (F(1, 100), F(99, 100))):
                 if abs(r - edge) < F(1, 10 ** 7):
                     return True
         if d[2] != 0:
@@ -195,7 +196,7 @@ def search(ctx, budget):
             kind = "path"
         else:
             order = 2 + i % 3
-            fam = ["int", "grid", "arch", "elevated", "dyadic", "float", "collinear", "coincident", "arch", "evenspaced", "tiny", "retracted", "teardrop"][(i // 3) % 13]
+            fam = ["int", "grid", "arch", "elevated", "dyadic", "float", "collinear", "coincident", "arch", "evenspaced", "tiny", "retracted", "teardrop", "axishandles"][(i // 3) % 14]
             fams[fam] = fams.get(fam, 0) + 1
             inp = {"pts": oc.rand_seg_pts(rng, order, fam)}
             kind = "seg"
